@@ -1090,9 +1090,14 @@ func runRelay(rc *relayCase, cs, sc chunkPol, seed uint64) (cl, sv *endResult, t
 		after(sv, s1, c, hr, init, err, earlyTagged(rc.EarlyS, 0x5E000000))
 	}()
 	ew.Wait()
-	for {
+	for spins := 0; ; spins++ {
 		synctest.Wait()
 		if dcs.idle() && dsc.idle() {
+			break
+		}
+		if spins > 300000 {
+			// five virtual minutes: an end that returned from its handshake and never reads what the relay
+			// still holds for it would keep this loop going for ever; the ends are closed below either way
 			break
 		}
 		time.Sleep(time.Millisecond)
